@@ -191,9 +191,17 @@ def _sk_block(algid, key):
     return bytes([algid]) + key + struct.pack('>H', sum(key) % 65536)
 
 
-def w_pkesk_rsa(pub, algid, key, keyid=None):
+def w_pkesk_rsa(pub, algid, key, keyid=None, short=False):
     m = _sk_block(algid, key)
-    c = rsa.RSAPublicNumbers(pub['e'], pub['n']).public_key().encrypt(m, padding.PKCS1v15())
+    pk = rsa.RSAPublicNumbers(pub['e'], pub['n']).public_key()
+    c = pk.encrypt(m, padding.PKCS1v15())
+    if short:
+        # a ciphertext integer with a leading zero octet (1 in 256): its MPI is one octet shorter than the modulus; PKCS#1 v1.5
+        # encryption is randomised, so re-encrypt until one comes up (expected 256 public-key operations)
+        for _ in range(20000):
+            if c[0] == 0:
+                break
+            c = pk.encrypt(m, padding.PKCS1v15())
     return bytes([3]) + (keyid or pub['keyid']) + bytes([pub['alg']]) + w_mpi(c)
 
 
@@ -462,7 +470,7 @@ def run_reverse(case):
             else:
                 out += w_pkt(3, w_skesk(r[6] if len(r) > 6 else algid, pw, spec, (algid, key)), hf[2])
         elif r[1] == 'rsa':
-            out += w_pkt(1, w_pkesk_rsa(K['rsa']['sub'], algid, key), hf[2])
+            out += w_pkt(1, w_pkesk_rsa(K['rsa']['sub'], algid, key, short=bool(case.get('rsa_short'))), hf[2])
         else:
             out += w_pkt(1, w_pkesk_ecdh(K[r[1]]['sub'], algid, key), hf[2])
     assert not direct or len(case['recips']) == 1
@@ -564,6 +572,10 @@ def enumerate_cases(tier, seed):
             add(dir='fwd', cipher=c, body=bodies[n % 3], comp=COMP_NAMES[n % len(COMP_NAMES)], recips=[['key', k]], meta=n % 4, armored=(n % 5 == 0))
             add(dir='rev', cipher=c, body=bodies[(n + 1) % 3], comp=COMP_NAMES[(n + 1) % len(COMP_NAMES)], comp0=False, recips=[['key', k]],
                 hdr=['new', 'new', 'new', 'new'], fname=n % len(REV_FILENAMES), time=1704067200, armored=False)
+    # RSA ciphertext integers with a leading zero octet (the session-key MPI is then shorter than the modulus)
+    for ci, c in enumerate(ciphers[:3] if not thorough else ciphers):
+        add(dir='rev', cipher=c, body=bodies[ci % 3], comp=COMP_NAMES[ci % len(COMP_NAMES)], comp0=False, recips=[['key', 'rsa']], rsa_short=True,
+            hdr=['new', 'new', 'new', 'new'], fname=ci % len(REV_FILENAMES), time=1704067200, armored=False)
     # several recipients, both orders of passphrase and key, shared session key
     orders = [lambda k, p, k2, p2: [p, k], lambda k, p, k2, p2: [k, p], lambda k, p, k2, p2: [k, k2], lambda k, p, k2, p2: [p, p2],
               lambda k, p, k2, p2: [k, p, k2], lambda k, p, k2, p2: [p, k, p2], lambda k, p, k2, p2: [p, k, k2, p2]]
